@@ -113,13 +113,55 @@ Theorem C10_lex_roundtrip_prev_obsolete : forall s, ends_word s -> trimmed ([35;
 Proof. exact lex_prev_obsolete. Qed.
 Print Assumptions C10_lex_roundtrip_prev_obsolete.
 
-(* the composition, with the remaining part of the lexer round trip as its hypothesis *)
-Theorem C10_load_render_partial : forall O ws c lines,
-  ascii_compatible (o_dec O) -> ~ In 34 ws -> scatalog_ok (o_dec O) c -> nplurals_le_10 c ->
-  ext (toks_catalog ws c) (lex_lines true lines) ->       (* MISSING LEMMA: every rendered line lexes to its token: proved above per line kind except #~ and #| prefixed lines; Codecs.open not composed *)
-  parse_lines O lines = Ok (mkPo (fst (catalog_value c)) (map (fun e => to_entry (tool_view e)) (snd (catalog_value c))) false).
-Proof. exact (fun O ws c lines => machine_roundtrip O ws c (lex_lines true lines)). Qed.
-Print Assumptions C10_load_render_partial.
+(* prefixed lines: #~ msgid ..., #~ ..., #~ msgstr[i] ..., #| msgid ..., #| ... *)
+Theorem C10_lex_roundtrip_obsolete_keyword : forall dec y kw osep sep c,
+  kw_of y = Some kw -> sep_str_ok osep -> all_space sep -> sep <> [] -> chunk_ok dec c ->
+  lex_line false ([35; 126] ++ osep ++ kw ++ sep ++ quoted c) = kw_tok true false y c.
+Proof. exact lex_obs_kw. Qed.
+Print Assumptions C10_lex_roundtrip_obsolete_keyword.
+Theorem C10_lex_roundtrip_obsolete_continuation : forall dec osep c, sep_str_ok osep -> chunk_ok dec c ->
+  lex_line false ([35; 126] ++ osep ++ quoted c) = cont_tok true false c.
+Proof. exact lex_obs_cont. Qed.
+Print Assumptions C10_lex_roundtrip_obsolete_continuation.
+Theorem C10_lex_roundtrip_obsolete_plural : forall osep i ws c, sep_str_ok osep -> i < 10 -> all_space ws -> ws <> [] ->
+  lex_line false ([35; 126] ++ osep ++ mx_cur i ws c) = LLine true false (AProc Ymx (mx_cur i ws c)).
+Proof. exact lex_obs_mx. Qed.
+Print Assumptions C10_lex_roundtrip_obsolete_plural.
+Theorem C10_lex_roundtrip_previous_keyword : forall y kw psep sep c,
+  prev_kw_of y = Some kw -> sep_str_ok psep -> all_space sep -> sep <> [] ->
+  lex_line false ([35; 124] ++ psep ++ kw ++ sep ++ quoted c) = kw_tok false true y c.
+Proof. exact lex_prev_kw. Qed.
+Print Assumptions C10_lex_roundtrip_previous_keyword.
+Theorem C10_lex_roundtrip_previous_continuation : forall psep c, sep_str_ok psep ->
+  lex_line false ([35; 124] ++ psep ++ quoted c) = cont_tok false true c.
+Proof. exact lex_prev_cont. Qed.
+Print Assumptions C10_lex_roundtrip_previous_continuation.
+
+(* every line of the rendered catalog lexes to its token (the lexer round trip, assembled) *)
+Theorem C10_lex_roundtrip : forall dec sp c, seps_ok sp -> scatalog_ok dec c -> nplurals_le_10 c ->
+  Forall2 lexes (render_bodies sp c) (toks_catalog_x sp c).
+Proof. exact lexes_catalog. Qed.
+Print Assumptions C10_lex_roundtrip.
+
+(* (2c) THE COMPOSITION.  [render_bodies sp c] are the lines of catalog c (Spec/PoSyntax.v part 3: separators sp, every
+   string chunked and spelled in the escape family, comment lines of each kind, #~ and #~| prefixes for obsolete
+   entries); a file of the family pads each line with white space (the line end included) and inserts
+   white-space-only lines anywhere.  _POFileParser.parse on these lines yields the catalog: header comments, and for
+   every entry msgctxt, msgid, msgid_plural, msgstr / msgstr[i], flags, obsolete marker, previous msgid (None for an
+   obsolete entry: D22), references and extracted comments; no warning.  Guard: nplurals <= 10 (D9). *)
+Theorem C10_load_render : forall O sp c raws,
+  ascii_compatible (o_dec O) -> seps_ok sp -> scatalog_ok (o_dec O) c -> nplurals_le_10 c ->
+  file_of (render_bodies sp c) raws ->
+  parse_lines O raws = Ok (mkPo (fst (catalog_value c)) (map (fun e => to_entry (tool_view e)) (snd (catalog_value c))) false).
+Proof. exact load_render. Qed.
+Print Assumptions C10_load_render.
+
+Theorem C10_load_render_exact : forall O sp c raws,
+  ascii_compatible (o_dec O) -> seps_ok sp -> scatalog_ok (o_dec O) c -> nplurals_le_10 c -> no_obsolete_prev c ->
+  file_of (render_bodies sp c) raws ->
+  parse_lines O raws = Ok (mkPo (fst (catalog_value c)) (map to_entry (snd (catalog_value c))) false).
+Proof. exact load_render_exact. Qed.
+Print Assumptions C10_load_render_exact.
 
 (* non-vacuity *)
 Definition latin1 : decoder := fun b => Some b.
